@@ -272,6 +272,12 @@ def codec64 : Codec UInt64 where
 /-! ## line protocol -/
 open Hive.Proto
 
+/-- A second value codec of the correspondence run: the value 0 encodes as the **empty** byte string (and the empty byte
+string decodes to 0) — a stored key whose value has zero length is present, not absent. -/
+def codec64z : Codec UInt64 where
+  enc v := if v = 0 then some [] else codec64.enc v
+  dec b := if b.isEmpty then some 0 else codec64.dec b
+
 def parseFaults (tok : String) : Option Faults :=
   if tok == "-" then some {} else
   (tok.splitOn ",").foldl (fun acc t =>
